@@ -572,7 +572,11 @@ impl Engine for Process {
         // 2. focused streams: well-formed dumps aimed at one mechanism each
         let n = if quick { 600 } else { 6000 };
         for i in 0..n {
-            let cpu = if i % 3 == 0 { "amd64" } else { *rng.pick(pg::CPUS) };
+            let cpu = match i % 6 {
+                0 | 1 => "amd64",
+                3 => "x86",
+                _ => *rng.pick(pg::CPUS),
+            };
             let os = *rng.pick(pg::OSES);
             let base = pg::F_STACKS | pg::F_MODULES | pg::F_EXCEPTION | pg::F_EXC_CONTEXT;
             let feat = match i % 6 {
@@ -655,6 +659,19 @@ impl Engine for Process {
 
     fn shrink(&self, case: &str, still_fails: &dyn Fn(&str) -> bool) -> String {
         let f: Vec<&str> = case.split(' ').filter(|s| !s.is_empty()).collect();
+        if f.get(1) == Some(&"opscan") && f.len() == 5 {
+            // name the single instruction
+            let pfx = kv(f[2], "pfx").map(|p| if p == "-" { vec![] } else { unhex(p).unwrap_or_default() }).unwrap_or_default();
+            let map = kv(f[3], "map").unwrap_or("1");
+            let op: u8 = kv(f[4], "op").and_then(|s| s.parse().ok()).unwrap_or(0);
+            for code in kernels::opscan_codes(&pfx, map, op) {
+                let c = format!("process op code:{} rsp:4", hex(&code));
+                if still_fails(&c) {
+                    return c;
+                }
+            }
+            return case.to_string();
+        }
         let Some(Pipe::Gen { seed, cpu, os, mut feat, mut opt, mut mutation }) = parse_pipe(&f) else {
             return case.to_string();
         };
